@@ -51,6 +51,11 @@ func c12Jobs(o Options) []Job {
 			jobs = append(jobs, Job{Harness: "onnx.H_C12_params", Case: map[string]interface{}{"dimsA": p[0], "dimsB": p[1], "dtypeB": dt}})
 		}
 	}
+	// more than 256 elements, their number no multiple of 256 (raw payloads decoded in blocks)
+	for _, dt := range []string{"FLOAT", "INT64", "INT16", "UINT8"} {
+		jobs = append(jobs, Job{Harness: "onnx.H_C12", Case: map[string]interface{}{"dtype": dt, "enc": "raw", "dims": []int{5, 4, 13}, "n": c12Width[dt] * 260}})
+		jobs = append(jobs, Job{Harness: "onnx.H_C12", Case: map[string]interface{}{"dtype": dt, "enc": "raw", "dims": []int{300}, "n": c12Width[dt] * 300}})
+	}
 	// the same description loaded twice through NewModel (package gonnx)
 	for _, n := range []int{1, 2} {
 		for _, typed := range []bool{false, true} {
